@@ -132,7 +132,7 @@ def check_C09(tier):
     prop = "C09"
     wd = vlib.workdir(prop)
     v = vlib.Verdict(prop, ["C09", "C01C02", "C03", "C05", "C06", "C07", "C11", "C13", "C04", "C15", "C17", "C16",
-                            "C18", "C08", "C14", "C07C08", "C07C14", "C04C05"])
+                            "C18", "C08", "C14", "C07C08", "C07C14", "C04C05", "C01C06", "C01C07"])
     cov = new_cov("call sequences generated by TLC from MQAbsGen (exhaustive to the stated depth per handle family, "
                   "plus -simulate walks over capacities 0..9); each is executed on the real crate and its trace "
                   "validated against MQAbsTrace; distinct_nontrivial = distinct recorded API traces")
@@ -375,7 +375,7 @@ def check_C01(tier):
             sc.uni_traffic("C01", "bcast", caps=caps) + sc.uni_traffic("C01", "mpmc", caps=caps) +
             sc.traffic("C01", "bcast", fut=True, caps=caps[:2]) + sc.traffic("C01", "mpmc", fut=True, caps=caps[:1]) +
             sc.add_stream_scn("C01a", caps=caps[:2]) + sc.population("C01p", "bcast", caps=caps[:1]))
-    return generic_check("C01", tier, ["C01C02"], scns, plans_for(tier), RULE_CONC + RULE_IMPL,
+    return generic_check("C01", tier, ["C01C02", "C01C06", "C01C07"], scns, plans_for(tier), RULE_CONC + RULE_IMPL,
                          models=[impl_model_stage(["spsc", "mpsc", "spmc", "bcast2", "view", "adddouble"])])
 
 
@@ -403,7 +403,7 @@ def check_C03(tier):
     for cap in range(0, 10):
         for (fam, fut) in (FAMILIES if tier == "thorough" else FAMILIES[:2]):
             gens.append(dict(family=fam, fut=fut, cap=cap, depth=3, ops=["fillprobe"]))
-    return generic_check("C03", tier, ["C03", "C01C02"], scns, plans_for(tier), RULE_CONC +
+    return generic_check("C03", tier, ["C03", "C01C02", "C01C06"], scns, plans_for(tier), RULE_CONC +
                          "; plus a fill/drain/fill probe for every requested capacity 0..9", gens=None,
                          models=[lambda wd, v, cov, tier: capacity_probe(wd, v, cov, tier),
                                  impl_model_stage(["mpsc", "bcast2", "spsc", "rmstream", "addsole", "adddouble"])])
@@ -460,7 +460,7 @@ def check_C06(tier):
     scns = (sc.traffic("C06", "bcast", caps=caps, probe=True) + sc.traffic("C06", "mpmc", caps=caps, probe=True) +
             sc.remove_stream("C06r", "bcast", caps=caps[:2]) + sc.population("C06p", "bcast", caps=caps[:2]) +
             sc.population("C06p", "mpmc", caps=caps[:2]) + sc.add_stream_scn("C06a", caps=caps[:2]))
-    return generic_check("C06", tier, ["C06"], scns, plans_for(tier), RULE_CONC +
+    return generic_check("C06", tier, ["C06", "C01C06"], scns, plans_for(tier), RULE_CONC +
                          "; every scenario ends with all threads joined and a single-threaded probe (drain every stream "
                          "to Empty, send until Full), whose calls are not overlapped and must equal the model exactly"
                          + RULE_IMPL, models=[impl_model_stage(["spsc", "rmstream", "popsend", "poprecv", "unsub2"])])
@@ -471,7 +471,7 @@ def check_C07(tier):
     scns = (sc.disconnect("C07", "bcast", caps=caps) + sc.disconnect("C07", "mpmc", caps=caps) +
             sc.disconnect("C07", "bcast", caps=caps[:2], fut=True) + sc.disconnect("C07", "mpmc", caps=caps[:1], fut=True) +
             sc.blocking("C07b", "bcast", caps=caps[:1], waits=("busy", "block00")))
-    return generic_check("C07", tier, ["C07", "C07C08", "C07C14"], scns, plans_for(tier), RULE_CONC + RULE_IMPL,
+    return generic_check("C07", tier, ["C07", "C07C08", "C07C14", "C01C07"], scns, plans_for(tier), RULE_CONC + RULE_IMPL,
                          models=[impl_model_stage(["disc", "blockdisc", "sibdrop"])])
 
 
@@ -492,21 +492,21 @@ def check_C10(tier):
     caps = caps_for(tier)
     scns = (sc.add_stream_scn("C10", caps=caps) + sc.add_stream_scn("C10", caps=caps[:2], fut=True) +
             sc.add_stream_scn("C10", caps=caps[:2], shared_parent=True))
-    return generic_check("C10", tier, ["C01C02", "C03", "C06"], scns, plans_for(tier), RULE_CONC + RULE_IMPL,
+    return generic_check("C10", tier, ["C01C02", "C03", "C06", "C01C06", "C01C07"], scns, plans_for(tier), RULE_CONC + RULE_IMPL,
                          models=[impl_model_stage(["addsole", "adddouble", "addshared"], expect_fail=("addshared_1",))])
 
 
 def check_C11(tier):
     caps = caps_for(tier)
     scns = (sc.remove_stream("C11", "bcast", caps=caps) + sc.remove_stream("C11", "bcast", caps=caps[:2], fut=True))
-    return generic_check("C11", tier, ["C11", "C06", "C03", "C01C02", "C08", "C14", "C07C08", "C07C14"], scns, plans_for(tier),
+    return generic_check("C11", tier, ["C11", "C06", "C03", "C01C02", "C08", "C14", "C07C08", "C07C14", "C01C06"], scns, plans_for(tier),
                          RULE_CONC + RULE_IMPL, models=[impl_model_stage(["rmstream", "unsub2"])])
 
 
 def check_C12(tier):
     caps = caps_for(tier)
     scns = sc.population("C12", "bcast", caps=caps) + sc.population("C12", "mpmc", caps=caps)
-    return generic_check("C12", tier, ["C01C02", "C03", "C06", "C04", "C05", "C04C05"], scns, plans_for(tier),
+    return generic_check("C12", tier, ["C01C02", "C03", "C06", "C04", "C05", "C04C05", "C01C06", "C01C07"], scns, plans_for(tier),
                          RULE_CONC + RULE_IMPL, models=[impl_model_stage(["popsend", "poprecv", "sibdrop"])])
 
 
@@ -637,7 +637,7 @@ def check_C15(tier):
                               "into_single", "into_multi", "transform"] + (["add_stream"] if fam == "bcast" else [])))
         gens.append(dict(family=fam, fut=True, cap=2, depth=40, simulate=(100 if tier == "quick" else 1500, 40),
                          ops=alphabet(fam, True), max_senders=3, max_streams=3, max_hps=2))
-    return generic_check("C15", tier, ["C15", "C01C02", "C03", "C05", "C06", "C07", "C09", "C13", "C14", "C18", "C07C14"], scns,
+    return generic_check("C15", tier, ["C15", "C01C02", "C03", "C05", "C06", "C07", "C09", "C13", "C14", "C18", "C07C14", "C01C06", "C01C07"], scns,
                          plans_for(tier), RULE_CONC +
                          "; plus sequential histories mixing start_send/poll_complete/poll with the direct methods "
                          "generated from MQAbsGen (including polls on a fresh empty queue); a poll/start_send that does "
